@@ -268,6 +268,7 @@ func main() {
 	factsUnshare(*repo)
 	factsChroot(*repo)
 	factsCopy(arch)
+	factsPool(arch)
 	factsArchive(arch)
 	factsStreams(*repo, arch)
 	factsShared(*repo)
